@@ -16,7 +16,7 @@
   [property, "known-defect", guard]; `lifted_guards(prop)` reads known_findings.json.
 * two writers: `gen_writers(rng, model, names)` (independent operations for two actors),
   `install_index_seam()` (scheduling points at the git index file operations).
-* determinism helpers: `relativise_log` (scratch paths and random name parts out of the
+* determinism helpers: `install_order_pin` (see there), `relativise_log` (scratch paths and random name parts out of the
   event log), `settle_randomness`, `quiet`.
 
 Conventions: paths are tree-relative, "/"-separated, "" is the root.  File contents are
@@ -1194,6 +1194,25 @@ class MTree:
         return "ok"
 
 
+class MTree1(MTree):
+    """MTree that declines commits selecting more than one path.  The bytes of the pack such a
+    commit writes (hence the pack's md5 name, the order of pack-names and every later index
+    lookup) depend on the iteration order of a Rust HashSet in the dirstate iter_changes code,
+    i.e. on hash keys drawn from the getrandom stream after process-history-dependent lazy
+    initialisations: the same (seed, plan) gives different event logs in different worker
+    processes (see mask_content_names).  For checks whose subject is not commit itself."""
+
+    def copy(self):
+        m = MTree.copy(self)
+        m.__class__ = type(self)
+        return m
+
+    def _do(self, op):
+        if op["o"] == "commit" and op.get("paths") is not None and len(op["paths"]) > 1:
+            raise Unmodelled()
+        return MTree._do(self, op)
+
+
 def fail(sim, prop, tag, rest, detail, territory=None):
     """sim.fail with a signature that names the reported defect (GUARDS entry) whose
     territory the run has entered with that guard lifted, if any: such failures are matched
@@ -1770,6 +1789,34 @@ def relativise_log(sim, root):
 
     def event(*fields, vol=None):
         orig(*[sub("~", str(f).replace(base, "<S>")) for f in fields], vol=vol)
+
+    sim.event = event
+
+
+_CONTENT_NAMES = None
+
+
+def mask_content_names(sim):
+    """Call after relativise_log.  Pack and index files are named after the md5 of the pack's
+    bytes, and those bytes are not a function of (seed, plan) alone: a commit of several
+    selected paths (specific_files) inserts the texts in the order the Rust dirstate code
+    iterates a HashSet, whose keys the thread draws from the deterministic getrandom stream
+    at its first use - after whichever process-wide lazy initialisations (also consumers of
+    that stream) happen to run first in this worker process.  Measured (C42, thorough tier,
+    seed 6, run 47): shifting the stream by 8 bytes right after the per-run reseed swaps the
+    two text records of the commit ['a b', 'd\u00e9'] and with it the pack name; everything else
+    in the log is identical.  The names are replaced by '#' in the event log (the files on
+    disk keep their names)."""
+    global _CONTENT_NAMES
+    import re
+
+    if _CONTENT_NAMES is None:
+        _CONTENT_NAMES = re.compile(r"(?<=/packs/)[0-9a-f]{32}(?=\.)|(?<=/indices/)[0-9a-f]{32}(?=\.)|(?<=/obsolete_packs/)[0-9a-f]{32}(?=\.)")
+    orig = sim.event
+    sub = _CONTENT_NAMES.sub
+
+    def event(*fields, vol=None):
+        orig(*[sub("#", str(f)) for f in fields], vol=vol)
 
     sim.event = event
 
